@@ -28,6 +28,26 @@ type sgen struct {
 	infos  []placeInfo
 	usable []int // indices into infos this script may use
 	ro     bool
+	// blobGets is the number of blob.get calls each registry host may still
+	// receive in this case. Implicit precondition of the tool, not of the
+	// property: the reader blob.get returns is never closed by the sandbox and
+	// keeps one of the host's 3 request slots (config reqConcurrent) for the life
+	// of the client, so a 4th request to that host would block until the script's
+	// timeout (forever without one). Termination is not what C19 states; the
+	// generator keeps every case below that limit.
+	blobGets map[string]int
+}
+
+// canBlobGet reserves one blob.get on the place's host (layouts are unlimited).
+func (g *sgen) canBlobGet(pi placeInfo) bool {
+	if pi.p.Kind != "reg" {
+		return true
+	}
+	if g.blobGets[pi.p.Host] <= 0 {
+		return false
+	}
+	g.blobGets[pi.p.Host]--
+	return true
 }
 
 func q(s string) string { return strconv.Quote(s) }
@@ -141,6 +161,9 @@ func (g *sgen) srcRef(kind, label string, forceStr bool, calls *[]string) (strin
 // usable place, a layout directory that does not exist yet, or a new repository.
 func (g *sgen) tgtRef(label string, forceStr bool, calls *[]string) string {
 	pi := g.place("", label+"_pl")
+	if !forceStr && g.k > 0 && g.draw(8, label+"_global") == 0 {
+		return "(G_r or " + q(pi.p.Base()+fmt.Sprintf(":w%d-%d", g.si, g.k)) + ")"
+	}
 	switch x := g.draw(20, label+"_tk"); {
 	case x < 11:
 		return g.refExpr(pi.p.Base(), fmt.Sprintf("w%d-%d", g.si, g.k), "", forceStr, label, calls)
@@ -174,6 +197,12 @@ func (g *sgen) getManifest(b *body, src, label string, allowHead bool) {
 	n := 6
 	if allowHead {
 		n = 8
+	}
+	if g.k > 0 && g.draw(5, label+"_global") == 0 {
+		// data flow across statements: an object left behind by an earlier statement
+		b.add("local m = G_m or manifest.get(%s)", src)
+		b.call("manifest.get")
+		return
 	}
 	switch g.draw(n, label+"_how") {
 	case 0, 1:
@@ -232,6 +261,9 @@ func (g *sgen) readBody() *body {
 		g.getManifest(b, src, "gm", true)
 		b.add(`log("manifest " .. tostring(m))`)
 		b.call("manifest.__tostring")
+		if g.chance(40, "keep") {
+			b.add(`G_m = m`)
+		}
 		if g.chance(50, "fields") {
 			b.add(`log("fields " .. tostring(m.mediaType) .. " " .. tostring(m.schemaVersion) .. " layers=" .. tostring(m.layers and #m.layers) .. " manifests=" .. tostring(m.manifests and #m.manifests))`)
 			b.add(`if m.manifests then for i, d in ipairs(m.manifests) do log("entry " .. i .. " " .. tostring(d.digest) .. " " .. tostring(d.platform and d.platform.architecture)) end end`)
@@ -290,6 +322,9 @@ func (g *sgen) readBody() *body {
 	case x < 58:
 		b.kind = g.pick([]string{"blob.get", "blob.head"}, "fn", "blob.get")
 		pi := g.place("", "pl")
+		if b.kind == "blob.get" && !g.canBlobGet(pi) {
+			b.kind = "blob.head"
+		}
 		d := g.pick(pi.blobs, "dig", bogusDigest)
 		if g.draw(8, "bogus") == 0 {
 			d = bogusDigest
@@ -337,6 +372,9 @@ func (g *sgen) readBody() *body {
 		b.add(`log("ref " .. tostring(r) .. " tag=" .. r:tag() .. " digest=" .. r:digest())`)
 		b.add(`r:tag(string.upper(%s) .. "-x")`, q(g.pick([]string{"ab", "v2", "rc"}, "nt", "ab")))
 		b.add(`log("retagged " .. tostring(r) .. " " .. string.len(r:tag()))`)
+		if g.chance(40, "keep") {
+			b.add(`G_r = r`)
+		}
 		if g.chance(50, "dig") {
 			b.add(`r:digest(%s)`, q(g.pick(pi.mans, "d", bogusDigest)))
 			b.add(`log("with digest " .. tostring(r) .. " " .. string.sub(r:digest(), 1, 12))`)
@@ -496,7 +534,11 @@ func (g *sgen) mutBody() *body {
 		b.kind, b.mut = "blob.put", "blob.put"
 		pi := g.place("", "spl")
 		d := g.pick(pi.blobs, "dig", bogusDigest)
-		switch g.draw(8, "how") {
+		how := g.draw(8, "how")
+		if (how == 4 || how == 5) && !g.canBlobGet(pi) {
+			how = 0
+		}
+		switch how {
 		case 0, 1, 2:
 			b.add("local d, n = blob.put(%s, %s)", g.tgtRef("tgt", true, cs), q(fmt.Sprintf("c19 content %d %d", g.si, g.k)))
 			b.add(`log("blob put " .. tostring(d) .. " " .. tostring(n))`)
@@ -518,6 +560,9 @@ func (g *sgen) mutBody() *body {
 			b.call("image.config", "blob.put")
 		default:
 			fn := g.pick([]string{"get", "head"}, "bfn", "get")
+			if fn == "get" && !g.canBlobGet(pi) {
+				fn = "head"
+			}
 			b.add("local b = blob.%s(%s, %s)", fn, q(pi.p.Base()), q(d))
 			b.add("local d, n = b:put(%s)", g.tgtRef("tgt", false, cs))
 			b.add(`log("blob method put " .. tostring(d) .. " " .. tostring(n))`)
@@ -601,11 +646,11 @@ func (g *sgen) mutBody() *body {
 // stmt draws one top-level statement.
 func (g *sgen) stmt() Stmt {
 	var b *body
-	protected := g.chance(55, "pcall")
+	protected := g.chance(70, "pcall")
 	switch x := g.draw(100, "cat"); {
-	case x < 10:
+	case x < 7:
 		b = g.errorBody()
-		protected = g.chance(30, "epcall")
+		protected = g.chance(40, "epcall")
 	case !g.ro && x < 64:
 		b = g.mutBody()
 	default:
@@ -668,6 +713,7 @@ func Gen(t *rapid.T) Case {
 	c.Verbosity = []string{"info", "info", "debug"}[uniform(t, 3, "verbosity")]
 	c.YAMLStyle = uniform(t, 2, "yaml")
 	c.ReadOnly = uniform(t, 4, "readonly") == 0
+	c.DefTimeout = []string{"", "", "600s"}[uniform(t, 3, "deftimeout")]
 	nScripts := 1 + uniform(t, 4, "nscripts")
 	concurrent := c.Mode == "cobra" && c.Parallel > 0
 
@@ -733,13 +779,14 @@ func Gen(t *rapid.T) Case {
 		infos[i] = pi
 	}
 
+	blobGets := map[string]int{HostA: 2, HostB: 2}
 	for si := 0; si < nScripts; si++ {
 		s := Script{Name: fmt.Sprintf("s%d", si)}
 		if sfx := rapid.SampledFrom([]string{"", "", " nightly copy", "-cleanup", " Retag #2"}).Draw(t, "namesfx"); sfx != "" {
 			s.Name += sfx
 		}
 		s.Timeout = rapid.SampledFrom([]string{"", "", "300s", "10m"}).Draw(t, "timeout")
-		g := &sgen{t: t, c: &c, si: si, infos: infos, ro: c.ReadOnly}
+		g := &sgen{t: t, c: &c, si: si, infos: infos, ro: c.ReadOnly, blobGets: blobGets}
 		for i, pi := range infos {
 			if pi.p.Owner < 0 || pi.p.Owner == si {
 				g.usable = append(g.usable, i)
